@@ -78,6 +78,23 @@ struct OlcEngine final : Engine {
     const auto cx = r.below(100);
     int cnt = cx < 62 ? small[r.below(10)] : (cx < 86 ? mid[r.below(6)] : big[r.below(6)]);
     if (tier != "thorough" && cnt > 18 && r.chance(0.5)) cnt = small[r.below(10)];
+    // Scenario templates (25 % of the programs): one thread causes a chosen structural change of the hot node, a second one
+    // writes next to it or below the node that survives / is edited in place, a third one reads (or scans) below it. The
+    // interesting races need exactly this cast, which independent random operations produce very rarely.
+    Rng tq = stream(seed, S_WORKLOAD + 64);
+    enum { T_NONE, T_COLLAPSE_INODE, T_COLLAPSE_LEAF, T_PREFIX_SPLIT, T_GROW, T_SHRINK, T_LEAF_SPLIT_BELOW };
+    int tmpl = T_NONE;
+    if (tq.chance(0.25)) {
+      tmpl = 1 + static_cast<int>(tq.below(6));
+      static const int grow_at[] = {4, 4, 16, 16, 48}, shrink_at[] = {5, 5, 17, 17, 49};
+      if (tmpl == T_COLLAPSE_INODE || tmpl == T_COLLAPSE_LEAF) cnt = 2;
+      else if (tmpl == T_GROW) cnt = grow_at[tq.below(tier == "thorough" ? 5 : 4)];
+      else if (tmpl == T_SHRINK) cnt = shrink_at[tq.below(tier == "thorough" ? 5 : 4)];
+      else if (cnt < 2) cnt = 2 + static_cast<int>(tq.below(3));
+      if (tmpl == T_PREFIX_SPLIT && lay.L > 3 && lay.p2 - lay.p1 < 2) {  // the hot node needs a compressed path to split
+        lay.p1 = 0; lay.p2 = std::min(lay.L - 2, 2 + static_cast<int>(tq.below(3))); lay.p3 = std::min(std::min(lay.L - 1, 7), lay.p2 + 1 + static_cast<int>(tq.below(2)));
+      }
+    }
     auto A1 = alphabet(r, static_cast<size_t>(n1) + 1);   // last one: absent top byte
     auto A2 = alphabet(r, static_cast<size_t>(cnt) + 3);  // last three: absent hot bytes
     auto A3 = alphabet(r, 3);
@@ -94,7 +111,8 @@ struct OlcEngine final : Engine {
     };
     for (int i = 0; i < cnt; i++) add_prefill(lay.key(a0, A2[static_cast<size_t>(i)], -1));
     int deep_b = -1;
-    if (cnt >= 1 && r.chance(0.45)) {
+    const bool want_deep = tmpl == T_COLLAPSE_INODE ? true : (tmpl == T_COLLAPSE_LEAF || tmpl == T_LEAF_SPLIT_BELOW ? false : r.chance(0.45));
+    if (cnt >= 1 && want_deep && lay.L > 2) {
       deep_b = A2[r.below(static_cast<uint64_t>(cnt))];
       add_prefill(lay.key(a0, deep_b, A3[1]));
     }
@@ -171,7 +189,7 @@ struct OlcEngine final : Engine {
     };
     // threads
     const auto tx = r.below(100);
-    const int nthreads = tx < 50 ? 2 : (tx < 85 ? 3 : 4);
+    const int nthreads = tmpl != T_NONE ? (tx < 75 ? 3 : 4) : (tx < 50 ? 2 : (tx < 85 ? 3 : 4));
     const int nscanners = focus == 9 ? (nthreads >= 3 && r.chance(0.4) ? 2 : 1) : 0;
     const bool with_scans = focus == 4 || focus == 14 || focus == 0;
     for (int t = 0; t < nthreads; t++) {
@@ -180,6 +198,7 @@ struct OlcEngine final : Engine {
       const auto ox = r.below(100);
       int nops = ox < 25 ? 1 : (ox < 60 ? 2 : (ox < 85 ? 3 : 4));
       if (scanner) nops = static_cast<int>(r.range(1, 2));
+      if (tmpl != T_NONE && t < 3) nops = static_cast<int>(tq.below(2));  // the template supplies the first operation
       for (int i = 0; i < nops; i++) {
         Op o;
         const auto k = r.below(100);
@@ -204,6 +223,68 @@ struct OlcEngine final : Engine {
         ops.push_back(o);
       }
       c.threads.push_back(std::move(ops));
+    }
+    if (tmpl != T_NONE) {
+      auto hotp = [&](int i) { return lay.key(a0, A2[static_cast<size_t>(i % std::max(cnt, 1))], -1); };
+      auto hota = [&](int i) { return lay.key(a0, A2[static_cast<size_t>(cnt + (i % 3))], -1); };
+      const std::string zero(static_cast<size_t>(lay.L), '\0');
+      int serial = 0;
+      auto mk = [&](int kind, const std::string& key) {
+        Op o; o.kind = kind; o.key = key; o.key2 = zero;
+        if (kind == O_INSERT) { o.a = (static_cast<int64_t>(9) << 24) | (static_cast<int64_t>(++serial) << 8) | 1; o.b = tq.range(8, 40); }
+        return o;
+      };
+      auto reader = [&](const std::string& key) {
+        if (focus == 9 || (with_scans && tq.chance(0.3))) {
+          Op o; o.kind = tq.chance(0.5) ? O_SCAN_FROM : O_SCAN; o.key = key; o.key2 = zero; o.a = tq.chance(0.6) ? 1 : 0; o.b = -1;
+          if (o.kind == O_SCAN) o.key = zero;
+          return o;
+        }
+        return mk(O_GET, key);
+      };
+      Op w1, w2, rd;
+      switch (tmpl) {
+        case T_COLLAPSE_INODE: {
+          const int other = deep_b == A2[0] ? A2[1] : A2[0];
+          w1 = mk(O_REMOVE, lay.key(a0, other, -1));
+          w2 = tq.chance(0.6) ? mk(O_INSERT, lay.key(a0, deep_b, A3[2])) : mk(O_REMOVE, lay.key(a0, deep_b, A3[1]));
+          rd = reader(lay.key(a0, deep_b, tq.chance(0.5) ? -1 : A3[1]));
+          break;
+        }
+        case T_COLLAPSE_LEAF:
+          w1 = mk(O_REMOVE, hotp(0));
+          w2 = tq.chance(0.5) ? mk(O_INSERT, hota(0)) : mk(O_REMOVE, hotp(1));
+          rd = reader(hotp(1));
+          break;
+        case T_PREFIX_SPLIT: {
+          std::string k = lay.key(a0, -1, -1);
+          if (lay.p2 - lay.p1 > 1) { const int at = lay.p1 + 1 + static_cast<int>(tq.below(static_cast<uint64_t>(lay.p2 - lay.p1 - 1))); k[static_cast<size_t>(at)] = static_cast<char>(k[static_cast<size_t>(at)] ^ 0x11); }
+          else k = hota(2);
+          w1 = mk(O_INSERT, k);
+          w2 = tq.chance(0.5) ? mk(O_INSERT, hota(0)) : mk(O_REMOVE, hotp(1));
+          rd = reader(hotp(0));
+          break;
+        }
+        case T_GROW:
+          w1 = mk(O_INSERT, hota(0));
+          w2 = tq.chance(0.5) ? mk(O_INSERT, hota(1)) : mk(O_REMOVE, hotp(1));
+          rd = reader(deep_b >= 0 && tq.chance(0.5) ? lay.key(a0, deep_b, A3[1]) : hotp(0));
+          break;
+        case T_SHRINK:
+          w1 = mk(O_REMOVE, hotp(0));
+          w2 = tq.chance(0.5) ? mk(O_REMOVE, hotp(1)) : mk(O_INSERT, hota(0));
+          rd = reader(deep_b >= 0 && tq.chance(0.5) ? lay.key(a0, deep_b, A3[1]) : hotp(2));
+          break;
+        default:  // T_LEAF_SPLIT_BELOW
+          w1 = mk(O_INSERT, lay.key(a0, A2[0], A3[1]));
+          w2 = tq.chance(0.6) ? mk(O_INSERT, hota(0)) : mk(O_REMOVE, hotp(1));
+          rd = reader(hotp(0));
+          break;
+      }
+      Op cast[3] = {w1, w2, rd};
+      for (int i = 2; i > 0; i--) std::swap(cast[i], cast[tq.below(static_cast<uint64_t>(i) + 1)]);
+      for (int t = 0; t < 3; t++) c.threads[static_cast<size_t>(t)].insert(c.threads[static_cast<size_t>(t)].begin(), cast[t]);
+      c.set_knob("template", tmpl);
     }
     c.set_knob("initial_threads", nthreads);
     if (focus == 4 || focus == 14 || focus == 0 || focus == 10) {
